@@ -245,7 +245,7 @@ type Once struct {
 // lazily initialised package-level object starts every run as it starts a fresh process).
 func (o *Once) Do(f func()) {
 	rt.Yield()
-	if o.done && o.ep != 0 && o.ep != rt.RunEpoch() {
+	if cur := rt.RunEpoch(); o.done && o.ep != 0 && cur != 0 && o.ep != cur {
 		o.done = false
 		rt.Reach("once.done-in-an-earlier-run-forgotten")
 	}
